@@ -531,3 +531,53 @@ theorem gumbelLambda_no_hang (f : ℝ → ℝ × ℝ) (variance : ℝ) (b : Bool
       · split <;> (intro hc; cases hc)
 
 end EaselModel.Stats
+
+namespace EaselModel.Stats
+open Real
+
+/-- over ℝ the Kahan compensation term is identically 0: the loop is the plain sum -/
+theorem kahan_foldl (f : ℝ → ℝ) (l : List ℝ) (s : ℝ) :
+    l.foldl (fun (sc : ℝ × ℝ) x => (sc.1 + (f x - sc.2), (sc.1 + (f x - sc.2) - sc.1) - (f x - sc.2))) (s, 0) = (s + (l.map f).sum, 0) := by
+  induction l generalizing s with
+  | nil => simp
+  | cons a t ih =>
+    simp only [List.foldl_cons, List.map_cons, List.sum_cons, sub_zero]
+    have e : (s + f a - s) - f a = 0 := by ring
+    rw [e, ih]; congr 1; ring
+
+theorem kahanSum_r (f : ℝ → ℝ) (xs : Array ℝ) : kahanSum f xs = (xs.toList.map f).sum := by
+  unfold kahanSum
+  rw [← Array.foldl_toList]
+  have := kahan_foldl f xs.toList 0
+  simp only [zero_r]
+  rw [this]; simp
+
+/-- `esl_lognormal_FitComplete` over ℝ: `mu` = mean of the logs, `sigma² = Σ(log xᵢ - mu)²/(n-1)` (the unbiased variance of the logs:
+    NOT the ML `1/n` — the log-normal `sigma` is `√(n/(n-1))` times the likelihood maximiser, by design of the routine) -/
+theorem lognormalFitComplete_eq (xs : Array ℝ) :
+    lognormalFitComplete xs = .res .ok #[(xs.toList.map Real.log).sum / xs.size,
+      Real.sqrt ((xs.toList.map (fun x => (Real.log x - (xs.toList.map Real.log).sum / xs.size) * (Real.log x - (xs.toList.map Real.log).sum / xs.size))).sum / ((xs.size : ℝ) - 1))] := by
+  unfold lognormalFitComplete
+  simp only [kahanSum_r, ofInt_r, log_r]
+  have e1 : ((((xs.size : Int) - 1 : Int)) : ℝ) = (xs.size : ℝ) - 1 := by push_cast; ring
+  simp only [Int.cast_natCast, e1]
+  rfl
+
+/-- for ANY `σ > 0` the mean of the logs maximises the log-normal log-likelihood in `μ`:
+    `Σ (aᵢ - μ')² ≥ Σ (aᵢ - ā)²` with `aᵢ = log xᵢ` -/
+theorem mean_minimises_squares (a : List ℝ) (hn : 0 < a.length) (mu' : ℝ) :
+    (a.map (fun x => (x - a.sum / a.length) * (x - a.sum / a.length))).sum ≤ (a.map (fun x => (x - mu') * (x - mu'))).sum := by
+  have hnr : (0 : ℝ) < a.length := by exact_mod_cast hn
+  have key : ∀ (l : List ℝ) (m c : ℝ), (l.map (fun x => (x - c) * (x - c))).sum =
+      (l.map (fun x => (x - m) * (x - m))).sum + 2 * (m - c) * (l.sum - l.length * m) + l.length * ((m - c) * (m - c)) := by
+    intro l m c
+    induction l with
+    | nil => simp
+    | cons x t ih => simp only [List.map_cons, List.sum_cons, List.length_cons, ih]; push_cast; ring
+  rw [key a (a.sum / a.length) mu']
+  have e : a.sum - a.length * (a.sum / a.length) = 0 := by field_simp; ring
+  rw [e]
+  have : 0 ≤ (a.length : ℝ) * ((a.sum / a.length - mu') * (a.sum / a.length - mu')) := mul_nonneg (le_of_lt hnr) (mul_self_nonneg _)
+  linarith
+
+end EaselModel.Stats
